@@ -131,6 +131,11 @@ impl CharProperty {
             .map(|c| c.as_str())
     }
 
+    #[cfg(feature = "verif")]
+    pub(crate) fn verif_categories(&self) -> Vec<String> {
+        self.categories.clone()
+    }
+
     #[inline(always)]
     pub fn num_categories(&self) -> usize {
         self.categories.len()
